@@ -971,3 +971,235 @@ theorem respondLive_good {c : Cfg} {r : Req} {later : List (List Ev)} {cs : List
         · exact .inl ⟨hsup.1, hp0, he0, fun ch hch => (a2.doneOk ch (List.mem_reverse.mp hch)).1⟩
 
 end C14
+
+/-! ## the buffers the queue model produces -/
+namespace Chunk
+open Queue
+
+theorem Queue.after_qinv {q : Queue} (hq : QInv q) (ops : List QOp) : QInv (q.after ops) := by
+  obtain ⟨q2, h1, h2⟩ := run_ok ops q hq
+  simp only [Queue.after, h1, Option.getD_some]
+  exact h2
+
+theorem Queue.states_qinv : ∀ (sched : List (List QOp)) (q : Queue), QInv q → ∀ q2 ∈ q.states sched, QInv q2 := by
+  intro sched
+  induction sched with
+  | nil => intro q hq q2 h; simp only [Queue.states, List.mem_singleton] at h; rw [h]; exact hq
+  | cons ops sched ih =>
+    intro q hq q2 h
+    simp only [Queue.states, List.mem_cons] at h
+    rcases h with rfl | h
+    · exact hq
+    · exact ih _ (Queue.after_qinv hq ops) q2 h
+
+theorem Queue.view_asc (size : QEv → Nat) (sel : QEv → Bool) {q : Queue} (hq : QInv q)
+    (hw : q.wrapped = false) : Asc (q.view size sel) := by
+  have := hq.asc hw
+  unfold Asc Queue.view
+  rw [List.map_map]
+  exact this
+
+theorem liveBufs_cons (size : QEv → Nat) (sel : QEv → Bool) (q : Queue) (sched : List (List QOp)) :
+    q.view size sel :: liveBufs size sel q sched = (q.states sched).map (Queue.view size sel) := by
+  cases sched <;> rfl
+
+/-- **every buffer a fetch sees iterates in ascending order of event numbers**, whatever other tasks
+push between the chunks (any priorities and lengths, evictions, promotions, failed pushes), as long as
+the 64-bit event number does not wrap -/
+theorem liveBufs_ascending (size : QEv → Nat) (sel : QEv → Bool) {q : Queue} (sched : List (List QOp))
+    (hq : QInv q) (hnw : ∀ q2 ∈ q.states sched, q2.wrapped = false) :
+    ∀ b ∈ q.view size sel :: liveBufs size sel q sched, Asc b := by
+  intro b hb
+  rw [liveBufs_cons] at hb
+  obtain ⟨q2, h2, rfl⟩ := List.mem_map.mp hb
+  exact Queue.view_asc size sel (Queue.states_qinv sched q hq q2 h2) (hnw q2 h2)
+
+end Chunk
+
+namespace C14
+open Chunk
+
+/-- the event numbers of the data reports among event reports -/
+def dataNums (evs : List EvPiece) : List Nat :=
+  evs.filterMap fun p => match p with
+    | .data n _ => some n
+    | .status _ _ => none
+
+theorem dataNums_live (r : EvReq) (em : List Ev) :
+    dataNums (statusPieces r ++ em.map evData) = em.map (·.num) := by
+  have h1 : dataNums (statusPieces r) = [] := by
+    simp only [dataNums, statusPieces, List.filterMap_map]
+    apply List.filterMap_eq_nil_iff.mpr
+    intro x _; rfl
+  have h2 : dataNums (em.map evData) = em.map (·.num) := by
+    simp only [dataNums, List.filterMap_map]
+    induction em with
+    | nil => rfl
+    | cons e es ih => simp [evData, ih]
+  have : dataNums (statusPieces r ++ em.map evData) = dataNums (statusPieces r) ++ dataNums (em.map evData) := by
+    simp [dataNums, List.filterMap_append]
+  rw [this, h1, h2, List.nil_append]
+
+/-- **no duplicates across the chunks of a live answer**: the event numbers reported over the whole
+answer ascend strictly (every event at most once, whatever was pushed, evicted or promoted between
+the chunks), and all lie in the range of the request -/
+theorem live_no_duplicates {later : List (List Ev)} {r : EvReq} {evs : List EvPiece}
+    (hasc : ∀ b ∈ r.buf :: later, Asc b) (h : LiveEvents later (some r) evs) :
+    (dataNums evs).Pairwise (· < ·) ∧ ∀ n ∈ dataNums evs, r.maxSeen < n ∧ n ≤ r.nextMax := by
+  obtain ⟨tr, hs, hb, _, rfl⟩ := h
+  have hascf : ∀ f ∈ tr, Asc f.buf := by
+    intro f hf
+    obtain ⟨i, hi, rfl⟩ := List.mem_iff_getElem.mp hf
+    rw [hb i _ (List.getElem?_eq_getElem hi)]
+    exact hasc _ (envOf_mem later r.buf i)
+  obtain ⟨h1, h2⟩ := hs.increasing hascf
+  rw [dataNums_live]
+  refine ⟨h1, ?_⟩
+  intro n hn
+  obtain ⟨e, he, rfl⟩ := List.mem_map.mp hn
+  refine ⟨h2 e he, ?_⟩
+  obtain ⟨f, hf, hef⟩ := List.mem_flatMap.mp he
+  have hw := ((hs.all_ok f hf).sound hef).2
+  simp only [EvReq.wants, EvReq.inRange, Bool.and_eq_true, decide_eq_true_eq] at hw
+  exact hw.1.2
+
+/-- **every reported event was in the queue, selected and behind the cursor at the time of ITS fetch** -/
+theorem live_sound {later : List (List Ev)} {r : EvReq} {evs : List EvPiece} (h : LiveEvents later (some r) evs)
+    {n sz : Nat} (hm : EvPiece.data n sz ∈ evs) :
+    ∃ i x, x ∈ envOf r.buf later i ∧ x.num = n ∧ x.size = sz ∧ r.passes x = true ∧ r.maxSeen < n ∧ n ≤ r.nextMax := by
+  obtain ⟨tr, hs, hb, _, rfl⟩ := h
+  rcases List.mem_append.mp hm with hm | hm
+  · simp only [statusPieces, List.mem_map] at hm
+    obtain ⟨_, _, hx⟩ := hm
+    cases hx
+  · obtain ⟨x, hx, hxe⟩ := List.mem_map.mp hm
+    simp only [evData, EvPiece.data.injEq] at hxe
+    obtain ⟨f, hf, hef⟩ := List.mem_flatMap.mp hx
+    obtain ⟨i, hi, rfl⟩ := List.mem_iff_getElem.mp hf
+    have hok := hs.all_ok _ hf
+    obtain ⟨hin, hw⟩ := hok.sound hef
+    rw [hb i _ (List.getElem?_eq_getElem hi)] at hin
+    have hk : r.maxSeen < x.num := by
+      -- behind the cursor of its fetch, which is not below the cursor of the request
+      have := wants_lt hw
+      obtain ⟨pre, post, hsplit⟩ : ∃ pre post, tr = pre ++ tr[i] :: post :=
+        ⟨tr.take i, tr.drop (i + 1), by simp⟩
+      rw [hsplit] at hs
+      rcases LiveSpec.cursor_src pre hs with h1 | ⟨g, hg, e, he, hn⟩
+      · omega
+      · -- the cursor is the number of an event an earlier fetch saw: the chain only moves forward
+        have hge : ∀ (p : List Fetch) (k : Nat) (f0 : Fetch) (q : List Fetch),
+            LiveSpec r k (p ++ f0 :: q) → k ≤ f0.cursor := by
+          intro p
+          induction p with
+          | nil => intro k f0 q h0; rw [h0.head]; exact Nat.le_refl _
+          | cons g0 p ih =>
+            intro k f0 q h0
+            have := ih _ f0 q (LiveSpec.tail h0 (by simp))
+            have := (h0.all_ok g0 (by simp)).mono
+            have := h0.head
+            omega
+        have := hge pre _ _ post hs
+        omega
+    simp only [EvReq.wants, EvReq.inRange, Bool.and_eq_true, decide_eq_true_eq] at hw
+    exact ⟨i, x, hin, hxe.1, hxe.2, hw.2, by rw [← hxe.1]; exact hk, by rw [← hxe.1]; exact hw.1.2⟩
+
+/-- **an event that stays in the queue is reported**: an event that is selected, in the range of
+the request and in the queue at every fetch of the answer (never evicted while the answer is sent) -/
+theorem live_complete_persistent {later : List (List Ev)} {r : EvReq} {evs : List EvPiece}
+    (h : LiveEvents later (some r) evs) {x : Ev} (hp : r.passes x = true) (hk : r.maxSeen < x.num)
+    (hmax : x.num ≤ r.nextMax) (hkept : ∀ b ∈ r.buf :: later, x ∈ b) : evData x ∈ evs := by
+  obtain ⟨tr, hs, hb, _, rfl⟩ := h
+  refine List.mem_append_right _ (List.mem_map.mpr ⟨x, ?_, rfl⟩)
+  refine hs.complete hp hmax hk ?_
+  intro f hf _
+  obtain ⟨i, hi, rfl⟩ := List.mem_iff_getElem.mp hf
+  rw [hb i _ (List.getElem?_eq_getElem hi)]
+  exact hkept _ (envOf_mem later r.buf i)
+
+/-- the queue a request is run on is reached by a history of operations from the empty queue -/
+theorem qinv_of_run {n : Nat} {ops : List QOp} {q : Queue} (h : (Queue.new n).run ops = some q) : Queue.QInv q := by
+  obtain ⟨q2, h1, h2⟩ := Queue.run_ok ops (Queue.new n) (Queue.qinv_new n)
+  rw [h] at h1
+  injection h1 with h1
+  rw [h1]; exact h2
+
+/-- **C14 while other tasks push events**: for the queue `q` of `im/events.rs` after any history,
+and any operations `sched` performed on it between the chunks (pushes of any priority and length with
+their evictions and promotions, failed pushes), an answer of the responder is `GoodLive` — as long as
+the 64-bit event number does not wrap -/
+theorem respondQ_good {c : Cfg} {r : Req} {size : QEv → Nat} {sel : QEv → Bool} {q : Queue}
+    {sched : List (List QOp)} {cs : List ChunkOut} (hw : c.WF) (hq : Queue.QInv q)
+    (hnw : ∀ q2 ∈ q.states sched, q2.wrapped = false) (h : respondQ c r size sel q sched = .ok cs) :
+    GoodLive c (r.onQueue size sel q) (liveBufs size sel q sched) cs := by
+  refine respondLive_good hw ?_ h
+  intro e he
+  have hbuf : e.buf = q.view size sel := by
+    simp only [Req.onQueue] at he
+    cases hre : r.events with
+    | none => rw [hre] at he; cases he
+    | some e0 => rw [hre] at he; injection he with he; rw [← he]
+  rw [hbuf]
+  exact liveBufs_ascending size sel sched hq hnw
+
+/-- **termination over a live queue**: when only finitely many changes of the queue happen while
+the answer is sent (`later` is a finite list; after it the queue stays as it is) the responder always
+ends: with an answer, `NoSpace` or `ResourceExhausted` — never with an endless sequence of chunks.
+Without this fairness assumption a Read (`next_max_seen = u64::MAX`) need not end: see the module text. -/
+theorem respondLive_never_loops {c : Cfg} {r : Req} {later : List (List Ev)} {e : Err}
+    (h : respondLive c r later = .error e) : e = .noSpace ∨ e = .tooBig := by
+  unfold respondLive at h
+  cases h1 : attrSection c r.attrs with
+  | error e2 => rw [h1] at h; injection h with h; subst h; exact .inl (attrSection_err h1)
+  | ok s1 =>
+    rw [h1] at h
+    simp only at h
+    cases h2 : eventSectionLive c s1 later r.events with
+    | error e2 =>
+      rw [h2] at h; injection h with h; subst h
+      cases hre : r.events with
+      | none => rw [hre] at h2; cases h2
+      | some ev =>
+        rw [hre] at h2
+        simp only [eventSectionLive] at h2
+        cases hx : expand c s1.lim c.evOpen with
+        | error e3 => rw [hx] at h2; injection h2 with h2; subst h2; exact .inl (expand_err hx)
+        | ok lim =>
+          rw [hx] at h2
+          simp only at h2
+          split at h2
+          · cases hst : putEvStatuses c 0 ev.statuses { s1 with lim := lim, used := s1.used + c.evOpen, base := s1.used + c.evOpen, cursor := ev.maxSeen } with
+            | error e3 => rw [hst] at h2; injection h2 with h2; subst h2; exact .inl (putEvStatuses_err _ _ _ _ hst)
+            | ok s3 =>
+              rw [hst] at h2
+              simp only at h2
+              cases hlo : evLoopLive c ev later ev.buf s3 with
+              | error e3 => rw [hlo] at h2; injection h2 with h2; subst h2; exact .inr (evLoopLive_err c ev _ _ _ _ hlo)
+              | ok s4 =>
+                rw [hlo] at h2
+                simp only at h2
+                cases hx2 : expand c s4.lim c.close with
+                | error e3 => rw [hx2] at h2; injection h2 with h2; subst h2; exact .inl (expand_err hx2)
+                | ok lim2 =>
+                  rw [hx2] at h2
+                  simp only at h2
+                  split at h2
+                  · cases h2
+                  · injection h2 with h2; exact .inl h2.symm
+          · injection h2 with h2; exact .inl h2.symm
+    | ok s2 =>
+      rw [h2] at h
+      simp only at h
+      split at h
+      · unfold sendDone at h
+        cases hx : expand c s2.lim c.reserve with
+        | error e3 => rw [hx] at h; injection h with h; subst h; exact .inl (expand_err hx)
+        | ok lim =>
+          rw [hx] at h
+          simp only at h
+          split at h
+          · cases h
+          · injection h with h; exact .inl h.symm
+      · cases h
+
+end C14
